@@ -457,6 +457,11 @@ def check(prop, tier, verif_seed, jobs, nruns=None, quiet=False):
             r = execute(profile, cfg, ops, None, tier)
         if r.violation is None:
             print("HARNESS-ERROR property=%s violation %s did not replay in-process" % (prop, sig))
+            try:
+                path = write_replay(prop, dict(v, message="(did not replay)", detail=None), cfg, ops, tier, None)
+                print("  case kept for diagnosis: %s (run_index %s)" % (path, v.get("run_index")))
+            except Exception:
+                pass
             return 2
         v = dict(v)
         v["message"] = r.violation[1]
